@@ -7,7 +7,8 @@ Cases == {[kind |-> "note", n |-> n, o |-> o] : n \in Names(2), o \in Octs} \cup
          {[kind |-> "hz", i |-> i, sp |-> sp] : i \in 0..127, sp \in {415, 430, 440, 442, 466}} \cup
          {[kind |-> "helmholtz", n |-> n, o |-> o] : n \in N35, o \in Octs} \cup
          {[kind |-> "velocity", v |-> v] : v \in -3..131} \cup {[kind |-> "channel", c |-> c] : c \in -3..19} \cup
-         {[kind |-> "badname", s |-> s] : s \in {<<"H">>, <<"c">>, <<"C","x">>, <<"C","-","4","-","5">>, <<"1">>, <<"#","C">>, <<"C","#","-","4","-">>, <<"h","-","4">>}} \cup
+         {[kind |-> "badname", s |-> s] : s \in {<<"H">>, <<"c">>, <<"C","x">>, <<"C","-","4","-","5">>, <<"1">>, <<"#","C">>, <<"C","#","-","4","-">>, <<"h","-","4">>,
+                                                  <<"C","-">>, <<"F","#","-">>, <<"B","b","-">>, <<"-","4">>, <<"C","-","-","1">>, <<"C","-","x">>, <<"C","-","4","x">>}} \cup
          \* a well-formed name with one foreign character put in at any position (front, middle, end) is malformed
          UNION {{[kind |-> "badname", s |-> SubSeq(n, 1, i) \o <<c>> \o SubSeq(n, i + 1, Len(n))] :
                    i \in 0..Len(n), c \in {"\n", " ", "\t", "x", "H", "1", "c", "."}} : n \in {<<"C">>, <<"B","b">>, <<"F","#","#">>}} \cup
